@@ -504,38 +504,59 @@ End Records.
 (* ------------------------------------------------------------------------------------------------ *)
 (* --multi-timestamp on concrete records                                                               *)
 
-Lemma expand_same_fields : forall now r, map strip_meta (expand_impl now r) = map strip_meta (expand_spec r).
+Lemma expanded_meta_all : forall copied now m, meta_all_copied copied = true -> expanded_meta copied now m = m.
 Proof.
-  intros now r. unfold expand_impl, expand_spec. destruct (filter cf_dt (c_fields r)) as [|d t]; [reflexivity|].
+  intros copied now [a b c] H. unfold meta_all_copied in H.
+  apply andb_prop in H. destruct H as [H H3]. apply andb_prop in H. destruct H as [H1 H2].
+  unfold expanded_meta. simpl. now rewrite H1, H2, H3.
+Qed.
+
+(* every expanded record keeps the metadata of the record *)
+Lemma expand_full : forall copied now r, meta_all_copied copied = true -> expand_impl copied now r = expand_spec r.
+Proof.
+  intros copied now r H. unfold expand_impl, expand_spec. now rewrite expanded_meta_all by assumption.
+Qed.
+
+Lemma expand_same_fields : forall copied now r,
+  map strip_meta (expand_impl copied now r) = map strip_meta (expand_spec r).
+Proof.
+  intros copied now r. unfold expand_impl, expand_spec. destruct (filter cf_dt (c_fields r)) as [|d t]; [reflexivity|].
   rewrite !map_map. reflexivity.
 Qed.
 
-Lemma expand_keeps_fields : forall now r r' f,
-  In r' (expand_impl now r) -> In f (c_fields r) -> is_ts_name (cf_name f) = false -> In f (c_fields r').
+Lemma expand_keeps_fields : forall copied now r r' f,
+  In r' (expand_impl copied now r) -> In f (c_fields r) -> is_ts_name (cf_name f) = false -> In f (c_fields r').
 Proof.
-  intros now r r' f Hr Hf Hn. unfold expand_impl in Hr.
+  intros copied now r r' f Hr Hf Hn. unfold expand_impl in Hr.
   destruct (filter cf_dt (c_fields r)) as [|d t].
   - destruct Hr as [<-|[]]. assumption.
   - apply in_map_iff in Hr. destruct Hr as [g [<- _]]. simpl. right. right.
     apply filter_In. split; [assumption|now rewrite Hn].
 Qed.
 
-Lemma expand_no_datetime : forall now r, filter cf_dt (c_fields r) = [] -> expand_impl now r = [r].
-Proof. intros now r H. unfold expand_impl. now rewrite H. Qed.
-
-Lemma expand_count : forall now r,
-  List.length (expand_impl now r) = Nat.max 1 (List.length (filter cf_dt (c_fields r))).
+Lemma expand_count : forall copied now r,
+  List.length (expand_impl copied now r) = Nat.max 1 (List.length (filter cf_dt (c_fields r))).
 Proof.
-  intros now r. unfold expand_impl. destruct (filter cf_dt (c_fields r)) as [|d t] eqn:E; [reflexivity|].
+  intros copied now r. unfold expand_impl. destruct (filter cf_dt (c_fields r)) as [|d t] eqn:E; [reflexivity|].
   rewrite map_length. simpl. reflexivity.
 Qed.
 
-Lemma expand_meta_lost : forall now r r', filter cf_dt (c_fields r) <> [] ->
-  In r' (expand_impl now r) -> c_meta r' = fresh_meta now.
+Lemma expand_spec_meta : forall r r', In r' (expand_spec r) -> c_meta r' = c_meta r.
 Proof.
-  intros now r r' H Hr. unfold expand_impl in Hr. destruct (filter cf_dt (c_fields r)) as [|d t]; [congruence|].
-  apply in_map_iff in Hr. destruct Hr as [g [<- _]]. reflexivity.
+  intros r r' H. unfold expand_spec in H. destruct (filter cf_dt (c_fields r)) as [|d t].
+  - destruct H as [<-|[]]. reflexivity.
+  - apply in_map_iff in H. destruct H as [g [<- _]]. reflexivity.
 Qed.
 
-Lemma expand_partial : forall now r, filter cf_dt (c_fields r) = [] -> expand_impl now r = expand_spec r.
-Proof. intros now r H. unfold expand_impl, expand_spec. now rewrite H. Qed.
+Lemma multi_timestamp_full : forall copied, meta_all_copied copied = true -> forall now r,
+  expand_impl copied now r = expand_spec r
+  /\ List.length (expand_spec r) = Nat.max 1 (List.length (filter cf_dt (c_fields r)))
+  /\ (forall r' f, In r' (expand_spec r) -> In f (c_fields r) -> is_ts_name (cf_name f) = false -> In f (c_fields r'))
+  /\ (forall r', In r' (expand_spec r) -> c_meta r' = c_meta r).
+Proof.
+  intros copied H now r. pose proof (expand_full copied now r H) as E. repeat split.
+  - exact E.
+  - rewrite <- E. apply expand_count.
+  - intros r' f. rewrite <- E. apply expand_keeps_fields.
+  - apply expand_spec_meta.
+Qed.
